@@ -159,7 +159,7 @@ def is_subsequence_prefix(verbs, expected):
 # ------------------------------------------------------------------------------------------ B: replies
 def gen_reply(rng):
     code = rng.choice([200, 213, 220, 226, 227, 230, 331, 150, 550, 421])
-    kind = rng.choice(['single', 'single', 'multi', 'multi-indented', 'multi-coded', 'lf-only'])
+    kind = rng.choice(['single', 'single', 'multi', 'multi-indented', 'multi-coded', 'lf-only', 'multi-digit-lines', 'multi-other-code'])
     words = ['ok', 'File status', 'Entering Passive Mode (127,0,3,9,156,65)', 'done.', 'transfer complete', 'é ü', '']
     if kind == 'single':
         text = [rng.choice(words)]
@@ -174,6 +174,14 @@ def gen_reply(rng):
         text = ['first line']
         for i in range(n):
             w = rng.choice(['features:', 'MLSD', 'UTF8', 'welcome to sim', 'quota: 10 of 20'])
+            if kind == 'multi-digit-lines':
+                # un-prefixed continuation lines that merely begin with digits (byte counts, dates, user counts): only a
+                # line made of this reply's code and a space ends the reply (RFC 959 4.2)
+                w = rng.choice(['2048 bytes free', '2015-01-01 maintenance', '2260 of 10000 bytes were sent', '12 users online',
+                                '1234567', '99', '2048', '226', '2260', '%d' % code, '%d0 x' % code, '%d\tx' % code])
+            elif kind == 'multi-other-code':
+                other = rng.choice([c for c in (226, 150, 200, 421, 550) if c != code])
+                w = rng.choice(['%d bytes sent' % other, '%d-odd' % other, '%d ' % other])
             if kind == 'multi-indented':
                 lines.append(' ' + w)
                 text.append(w)
@@ -298,6 +306,11 @@ def check_reply(case, part, rng):
         # leading white space of continuation lines is not significant
         got_lines = [ln.lstrip(' ') for ln in base[1].split('\r\n')]
         ref_texts = [ln.lstrip(' ') for ln in ref_texts]
+        if case['kind'] in ('multi-digit-lines', 'multi-other-code'):
+            # how much of a digit prefix of a continuation line is kept in the text is not part of the statement: only
+            # the number of lines is compared for these shapes
+            got_lines = len(got_lines)
+            ref_texts = len(ref_texts)
         if got_lines != ref_texts:
             part.violation('reply-text-differs/' + case['kind'], {'got': got_lines, 'want': ref_texts}, replay)
         else:
